@@ -117,6 +117,12 @@ impl CharSet {
         }
     }
 
+    /// Verification hook: the pair (start, end) of this interval
+    #[cfg(aws_smt_strings_verif)]
+    pub fn verif_bounds(&self) -> (u32, u32) {
+        (self.start, self.end)
+    }
+
     /// Check whether x is in this interval
     ///
     /// # Example
